@@ -168,6 +168,35 @@ def parse_var_keywords(test_str: str) -> tuple[list[str], str]:
     return keywords, test_str
 
 
+def set_char_len(desc: str, char_len: str) -> str:
+    """Character type with the length given for one entity (``name*len``)
+
+    Examples
+    --------
+    >>> set_char_len("CHARACTER", "*10")
+    'CHARACTER*10'
+    >>> set_char_len("CHARACTER(len=3)", "*2")
+    'CHARACTER*2'
+    >>> set_char_len("CHARACTER(len=3, kind=1)", "*(*)")
+    'CHARACTER(len=*, kind=1)'
+    """
+    i_paren = desc.find("(")
+    if i_paren < 0:
+        return desc + char_len
+    selector = desc[i_paren + 1 : desc.rfind(")")]
+    kind = [
+        part.strip()
+        for part in separate_def_list(selector) or []
+        if part.strip().lower().replace(" ", "").startswith("kind=")
+    ]
+    if not kind:
+        return desc[:i_paren] + char_len
+    length = char_len[1:].strip()
+    if length.startswith("(") and length.endswith(")"):
+        length = length[1:-1].strip()
+    return f"{desc[:i_paren]}(len={length}, {kind[0]})"
+
+
 def get_parameter_value(line: str) -> str:
     """The initialisation expression at the start of ``line``: up to the comma that
     separates the next entity, skipping parentheses, brackets and character literals
@@ -1468,9 +1497,18 @@ class FortranFile:
                     name, dims = self.parse_imp_dim(name)
                     name, char_len = self.parse_imp_char(name)
                     if dims:
+                        # The array-spec of the entity overrides the DIMENSION attribute
+                        var_keywords = [
+                            keyword
+                            for keyword in var_keywords
+                            if not keyword.upper().startswith("DIMENSION")
+                        ]
                         var_keywords.append(dims)
+                    var_kind = obj_info.var_kind
                     if char_len:
-                        desc += char_len
+                        # The length of the entity overrides the one of the type-spec
+                        desc = set_char_len(desc + (var_kind or ""), char_len)
+                        var_kind = None
 
                     name = name.strip()
                     keywords, keyword_info = map_keywords(var_keywords)
@@ -1494,7 +1532,7 @@ class FortranFile:
                             desc,
                             keywords,
                             keyword_info=keyword_info,
-                            kind=obj_info.var_kind,
+                            kind=var_kind,
                             link_obj=link_name,
                         )
                         # If the object is fortran_var and a parameter include
